@@ -1,4 +1,4 @@
-import TypifyModel.Proofs.Lemmas.ConvAccepts2
+import TypifyModel.Proofs.Lemmas.ConvAccepts3
 /-! # C02 — every schema-valid JSON instance deserializes into the generated type
 
 `conv_accepts`: ∀ IR σ, ∀ documents, ∀ schemas S, ∀ types τ, ∀ JSON instances v: if every
@@ -324,6 +324,60 @@ theorem convD_accepts (hreg : ∀ p s, x.regex p s = vx.regex p s)
             cases k' with
             | zero => simp at hk; subst hk; exact Or.inl hs0
             | succ _ => simp at hk) f
+    · -- oneOf → externally tagged enum
+      simp only [Bool.and_eq_true] at hb
+      simp only [valid] at hv
+      generalize hc : countV _ _ = oc at hv
+      cases oc with
+      | none => simp at hv
+      | some c =>
+        simp at hv; subst hv
+        exact ext_accepts x vx σ d (m := m) (by omega) hrec hget hb.1 hb.2 hc (by omega) f
+    · -- anyOf → externally tagged enum
+      simp only [Bool.and_eq_true] at hb
+      simp only [valid] at hv
+      generalize hc : countV _ _ = oc at hv
+      cases oc with
+      | none => simp at hv
+      | some c =>
+        simp at hv
+        exact ext_accepts x vx σ d (m := m) (by omega) hrec hget hb.1 hb.2 hc hv f
+    · -- oneOf → internally tagged enum
+      simp only [Bool.and_eq_true] at hb
+      simp only [valid] at hv
+      generalize hc : countV _ _ = oc at hv
+      cases oc with
+      | none => simp at hv
+      | some c =>
+        simp at hv; subst hv
+        exact int_accepts x vx σ d (m := m) (by omega) hrec hget hb.1 hb.2 hc (by omega) f
+    · -- anyOf → internally tagged enum
+      simp only [Bool.and_eq_true] at hb
+      simp only [valid] at hv
+      generalize hc : countV _ _ = oc at hv
+      cases oc with
+      | none => simp at hv
+      | some c =>
+        simp at hv
+        exact int_accepts x vx σ d (m := m) (by omega) hrec hget hb.1 hb.2 hc hv f
+    · -- oneOf → adjacently tagged enum
+      simp only [Bool.and_eq_true] at hb
+      simp only [valid] at hv
+      generalize hc : countV _ _ = oc at hv
+      cases oc with
+      | none => simp at hv
+      | some c =>
+        simp at hv; subst hv
+        exact adj_accepts x vx σ d (m := m) (by omega) hrec hget hb.1 hb.2 hc (by omega) f
+    · -- anyOf → adjacently tagged enum
+      simp only [Bool.and_eq_true] at hb
+      simp only [valid] at hv
+      generalize hc : countV _ _ = oc at hv
+      cases oc with
+      | none => simp at hv
+      | some c =>
+        simp at hv
+        exact adj_accepts x vx σ d (m := m) (by omega) hrec hget hb.1 hb.2 hc hv f
     · -- oneOf → untagged enum
       simp only [valid] at hv
       generalize hc : countV _ _ = oc at hv
